@@ -108,6 +108,47 @@ def slots_c03():
         at(derive(item(agg("row_number", b), "rn")), 5),
     ]
 
+def _c04_parts(tier):
+    frames = [("none", 0, 0, ""), ("rows", -1, 1, ""), ("rows", -INF, 0, "expanding"), ("rows", -1, 0, "rolling"),
+              ("rows", 0, INF, ""), ("rows", -2, -1, ""), ("rows", 1, 2, ""), ("rows", -INF, INF, ""), ("range", -1, 1, "")]
+    fns = ["sum", "min", "max", "average", "count", "lag", "lead", "first", "last", "rank", "rank_dense", "row_number"]
+    if tier == "quick":
+        frames = [frames[i] for i in (0, 1, 2, 3, 5, 8)]
+    sorts = [sort(("asc", "k")), sort(("desc", "k")), sort(("asc", "b"), ("asc", "k"))]
+    def placed(f, where):
+        e = agg(f, b, 1)
+        if where == "derive": return derive(item(e, "w"))
+        if where == "select": return select(item("k"), item(e, "w"))
+        if where == "filter": return filter_(bin_(">=", e, lit(1)))
+        return sort(("asc", e), ("asc", "k"))
+    wsteps, gsteps = [], []
+    for (fk, lo, hi, sugar) in frames:
+        for f in fns:
+            for where in ("derive", "select", "filter", "sort"):
+                if where == "sort" and not (f in ("sum", "row_number") and fk in ("none", "rows") and lo in (0, -1)):
+                    continue        # sorting by a windowed value: two representatives (known finding F41)
+                if where == "filter" and tier == "quick" and f not in ("sum", "row_number", "lag", "count", "rank", "min"):
+                    continue
+                inner = placed(f, where)
+                w = inner if fk == "none" else window(fk, lo, hi, [inner], sugar)
+                wsteps.append(w)
+                if where in ("derive", "filter"):
+                    for srt in (sorts[:1] if tier == "quick" else sorts):
+                        gsteps.append(group(["a"], [srt, w]))
+    followers = [filter_(bin_(">", k, lit(1))), select(item("k")), take(1, 2),
+                 derive(item(agg("sum", k), "tot")), aggregate(item(agg("count", k), "n"))]
+    return sorts, wsteps, gsteps, followers
+
+def slots_c04_top(tier):
+    sorts, wsteps, gsteps, followers = _c04_parts(tier)
+    return ([at(x, 2) for x in sorts] + [at(filter_(bin_("!=", a, lit(None))), 2), at(take(1, 3), 2)]
+            + [at(w, 3) for w in wsteps] + [at(f, 4) for f in followers])
+
+def slots_c04_group(tier):
+    sorts, wsteps, gsteps, followers = _c04_parts(tier)
+    return ([at(filter_(bin_("!=", a, lit(None))), 2), at(sort(("desc", "k")), 2)]
+            + [at(g, 3) for g in gsteps] + [at(f, 4) for f in followers])
+
 CONFIG = {
     "C01": dict(relevant={"rows", "ExecError", "Panic", "rejected-wellformed"}, alphabet=alph_c01,
                 gen=dict(), depth={"quick": 4, "thorough": 5}, nrand={"quick": 600, "thorough": 12000}),
@@ -116,6 +157,10 @@ CONFIG = {
                 nrand={"quick": 500, "thorough": 10000}),
     "C05": dict(relevant={"frame", "rqframe"}, alphabet=alph_c05,
                 gen=dict(p_join=0.25), depth={"quick": 4, "thorough": 5}, nrand={"quick": 500, "thorough": 10000}),
+    "C04": dict(relevant={"rows", "order", "ExecError", "Panic", "rejected-wellformed"}, alphabet=None,
+                slotmodels=[(slots_c04_top, 4), (slots_c04_group, 4)],
+                gen=dict(p_window=0.5, p_group=0.3, p_join=0.05, p_append=0.0), depth={"quick": 0, "thorough": 0},
+                nrand={"quick": 400, "thorough": 8000}),
     "C10": dict(relevant={"accepted-illformed"}, alphabet=alph_c10,
                 gen=dict(), depth={"quick": 4, "thorough": 5}, nrand={"quick": 300, "thorough": 5000}),
 }
@@ -138,30 +183,29 @@ def check(pid, tier):
     skipped = 0
     samples = []
     by_what = {}
-    # (1) bounded-exhaustive: every pipeline over the alphabet up to the depth
-    m = model([from_("t")], cfg["alphabet"](), cfg["depth"][tier])
-    progs, info = l1.mc_generate(f"{pid}-mc", m, dbset, workers=8 if tier == "quick" else 14)
-    states += info["distinct"]; transitions += info["generated"]
-    res = l1check.run(rep, f"{pid}-mc", progs, dbset, cfg["relevant"])
-    traces += res["accepted"] + res["rejected"]; skipped += res["skipped"]; events += res["events"]
-    for kk, vv in res["by_what"].items():
-        by_what[kk] = by_what.get(kk, 0) + vv
+    # (1) bounded-exhaustive: every pipeline over the alphabet up to the depth (and the slot models:
+    # one alphabet per pipeline position, for deep chains without the blow-up)
+    import inspect
+    models = []
+    if cfg.get("alphabet"):
+        models.append(("mc", model([from_("t")], cfg["alphabet"](), cfg["depth"][tier])))
+    for n, (sl, sd) in enumerate(cfg.get("slotmodels", []) + ([cfg["slots"]] if "slots" in cfg else [])):
+        models.append((f"slots{n}", model([from_("t")], sl(tier) if len(inspect.signature(sl).parameters) else sl(), sd)))
+    nmc = 0
+    nshapes = 0
     rnd = random.Random(seed())
-    for p in ([progs[0], progs[-1]] + rnd.sample(progs, min(3, len(progs)))):
-        s = res["side"].get(p["id"], {})
-        samples.append({"prql": s.get("src", "").split("}\n", 1)[-1], "sql": s.get("sql"), "model_status": p.get("status")})
-    nmc = len(progs)
-    # (1b) slot model: one alphabet per pipeline position (deep chains without the blow-up)
-    if "slots" in cfg:
-        sl, sd = cfg["slots"]
-        m2 = model([from_("t")], sl(), sd)
-        progs2, info2 = l1.mc_generate(f"{pid}-slots", m2, dbset, workers=8)
-        states += info2["distinct"]; transitions += info2["generated"]
-        res1b = l1check.run(rep, f"{pid}-slots", progs2, dbset, cfg["relevant"])
-        traces += res1b["accepted"] + res1b["rejected"]; skipped += res1b["skipped"]; events += res1b["events"]
-        for kk, vv in res1b["by_what"].items():
+    for mname, m in models:
+        progs, info = l1.mc_generate(f"{pid}-{mname}", m, dbset, workers=8 if tier == "quick" else 14)
+        states += info["distinct"]; transitions += info["generated"]
+        res = l1check.run(rep, f"{pid}-{mname}", progs, dbset, cfg["relevant"])
+        traces += res["accepted"] + res["rejected"]; skipped += res["skipped"]; events += res["events"]
+        for kk, vv in res["by_what"].items():
             by_what[kk] = by_what.get(kk, 0) + vv
-        nmc += len(progs2)
+        for p in ([progs[-1]] + rnd.sample(progs, min(2, len(progs)))):
+            sd_ = res["side"].get(p["id"], {})
+            samples.append({"prql": sd_.get("src", "").split("}\n", 1)[-1], "sql": sd_.get("sql"), "model_status": p.get("status")})
+        nmc += len(progs); nshapes += len(m["steps"])
+    m = {"steps": [None] * nshapes, "depth": max(mm["depth"] for _, mm in models)}
     # (2) seeded random programs beyond the bound
     g = gen.G(seed(), **cfg["gen"])
     rprogs = [g.program(i) for i in range(cfg["nrand"][tier])]
@@ -175,7 +219,7 @@ def check(pid, tier):
     coverage = {
         "states": states, "transitions": transitions, "traces_validated_against_impl": traces,
         "samples": samples, "exhaustive": True,
-        "explanation": f"PrqlMC explored every pipeline of <= {cfg['depth'][tier]} transforms over {len(m['steps'])} step shapes on {len(json.load(open(dbset))['dbs'])} database instances ({nmc} programs, each a state; machine invariants + step laws checked); every program plus {len(rprogs)} seeded random programs was compiled by the prqlc built from /repo, executed on SQLite per instance, and the {events} recorded events validated by PrqlTrace",
+        "explanation": f"PrqlMC explored every pipeline of <= {m['depth']} transforms over {len(m['steps'])} step shapes (position-restricted where the model is a slot model) on {len(json.load(open(dbset))['dbs'])} database instances ({nmc} programs, each a state; machine invariants + step laws checked); every program plus {len(rprogs)} seeded random programs was compiled by the prqlc built from /repo, executed on SQLite per instance, and the {events} recorded events validated by PrqlTrace",
         "programs_mc": nmc, "programs_random": len(rprogs), "trace_events": events,
         "not_judged_unsup": skipped, "rejections_by_kind_all_properties": by_what,
         "relevant_kinds": sorted(cfg["relevant"]), "selftest": st,
